@@ -54,7 +54,8 @@ check('C01', 'exploration',
 check('C02', 'exploration',
       "(a) wire: a raw protocol peer independent of the repository's engine.io code records MESSAGE frames; a strict reference assembler (header -> exactly N binary frames) turns any "
       "interleaving into a protocol error; per-emitter sequence numbers must increase; s->c via raw client, c->s via a raw Engine.IO server, on polling / websocket / after a completed upgrade, "
-      "1..16 emitters, 0..4 attachments. (b) handler-entry order in sio<->sio worlds (known finding: per-packet dispatch goroutines).",
+      "1..16 emitters, 0..4 attachments. (b) handler-entry order in sio<->sio worlds, incl. a variant where every second event carries ~300 KB (decoding outlasts the dispatch grace); "
+      "rare inversions are the known finding (per-packet dispatch goroutines), systematic ones (>= 5 and >= 2 % of a case) are violations.",
       "Order across the swap itself is C07's; ping/pong/noop between frames are ignored.",
       "independent wire observer + strict reassembly state machine + per-emitter monotonicity", "DESIGN.md §3 C02")
 
@@ -62,6 +63,7 @@ check('C03', 'exploration',
       "Ack trials in sio<->sio worlds (polling, websocket, upgraded; both directions): reply delay swept over {0, T/2, the race band T-2ms..T+2ms in 0.25 ms steps, 2T, never} for T in {20,100,400 ms}, "
       "0/2 attachments, responder calling its ack function once / twice / twice concurrently, all trials of a direction outstanding at once; per-emission callback counter and reply-token "
       "oracle (at most once; exactly once with a timeout, decided at timeout+10 s; reply token or ErrAckTimeout with zero values); wire-level ACK count per id through a raw peer; "
+      "big replies (~600 KB, slow to decode) timed into the race band one at a time after measuring their round trip; "
       "offline (never connected) timeouts with 0..3 attachments followed by connect, probe round trip and server-side 'purged event not seen / no error / no disconnect'; link cut mid-flight.",
       "No outcome is prescribed inside the race band; a late reply reported to error handlers ('ACK with ID n not found') is not counted as a violation.",
       "callback-count + reply-token monitor over timing sweeps; wire observer; post-condition probes", "DESIGN.md §3 C03")
@@ -84,7 +86,7 @@ check('C04', 'exploration',
 
 check('C06', 'fault_enumeration',
       "Cause x phase trials (10 termination causes x {before CONNECT, inside a parked namespace middleware, connected idle, mid-burst c->s, mid-burst s->c, during the polling->websocket "
-      "upgrade, two namespaces} x transport) driven by a raw protocol peer through a byte-accurate TCP fault proxy; scripted sessions cut at every k-th byte (k=1 on websocket in thorough) in "
+      "upgrade, two namespaces, Join/Leave storm on the closing socket, second namespace's CONNECT parked while the first socket runs a slow disconnecting handler} x transport) driven by a raw protocol peer through a byte-accurate TCP fault proxy; scripted sessions cut at every k-th byte (k=1 on websocket in thorough) in "
       "each direction; several causes fired at once. Monitors: per-socket counters on connection/disconnecting/disconnect handler entry with the reported reason, and a quiescent-point "
       "sweep over Namespace.Sockets, the adapter index (invariant + snapshot hook), the Engine.IO session-count hook and an HTTP probe with the old sid.",
       "Quiescence = sweep stable and clean under a watchdog of pingInterval+pingTimeout+15 s; allowed reason sets per cause are the monitor's reading of 'a reason naming the cause'.",
@@ -99,7 +101,7 @@ check('C11', 'exploration',
       "differential testing vs independent reference codec; exhaustive length enumeration; fuzzing under recover(); child-process allocation monitor", "DESIGN.md §3 C11")
 
 check('C07', 'fault_enumeration',
-      "eio<->eio rig (real Engine.IO server and real Go client) through a TCP fault proxy that slows the WebSocket upgrade connection so that numbered text/binary messages of both sides keep flowing "
+      "eio<->eio rig (real Engine.IO server and real Go client) through a TCP fault proxy that slows the WebSocket upgrade connection so that numbered text/binary messages (every 97th one 33..113 KB) of both sides keep flowing "
       "through the swap, or refuses / stalls (1 s timeouts) / cuts it at every 8th (quick: 24th) byte of the websocket byte stream in each direction, under three traffic patterns. Oracle: multiset "
       "equality of sent and received numbers at a fence (exactly once while the connection lives, at most once when it legitimately dies after the client swapped), TransportName() on both "
       "sides, close callbacks counted, Send bounded by a 60 s hang watchdog.",
@@ -110,13 +112,15 @@ check('C12', 'exploration',
       "Real server on loopback; the finite admission matrix is enumerated completely in both tiers: 66 namespace-middleware chains (length 0..5 x first rejection position x kind error/string/struct/map) x 2 "
       "namespaces x {1, 8 concurrent clients} x {Go client, raw peer}. Safety facts (order, nothing listed / in a room / reachable by a broadcast before all middlewares accepted or after a rejection, "
       "handler after rejection) are checked on a logical-clock log with state snapshots and tokenised broadcasts taken inside the parked middlewares; CONNECT / CONNECT_ERROR payloads and broadcast "
-      "non-delivery are observed on the wire by an independent peer behind an acked fence. Event middlewares: 10 configurations x 7 handler signatures x 2 client kinds, one event in flight per socket.",
+      "non-delivery are observed on the wire by an independent peer behind an acked fence. Event middlewares: 10 configurations x 7 handler signatures x 2 client kinds, one event in flight per socket. "
+      "Part 3 (sampled): many self-identifying events of one socket inside a 2..3-middleware chain at once (name/arguments belong together, chain order, no handler after rejection); admission under "
+      "connection-state recovery x UseMiddlewares x CONNECT auth {none, made-up pid (+offset), empty pid+offset} x {rejecting, accepting} middleware.",
       "Client<->socket mapping through the CONNECT auth payload; fence soundness relies on one FIFO packet queue per connection; absence concluded only after fence + 15 s. A structured rejection carried in the 'message' field is counted, not flagged (library design).",
       "recorded-history monitor over an exhaustively enumerated configuration space; in-middleware snapshots; raw wire observer with positive control", "DESIGN.md §3 C12")
 
 check('C13', 'exploration',
       "Enforcement: an independent raw peer sends one message of transport-level size L-1, L, L+1, 2L, 10L and seeded sizes declared four ways (POST with Content-Length, chunked POST, websocket text, websocket "
-      "binary) to real servers with MaxBufferSize 200, 4096, default 1e6, disabled; monitors: server packet callback (length + content hash), close callback, live-session count, what the sender saw. "
+      "binary, and websocket text/binary on a session opened on polling and upgraded) to real servers with MaxBufferSize 200, 4096, default 1e6, disabled; monitors: server packet callback (length + content hash), close callback, live-session count, what the sender saw. "
       "Acceptance: real Go client <-> real server over polling and websocket, both directions, text and binary, at the frame-header steps, the 32 KiB library default, L-1 and L, incl. multi-packet Send. "
       "Batcher: the client's real writeWritablePackets behind VerifSplitBatches enumerated exhaustively (thorough: all vectors of <= 6 data lengths over {0,1,2,3,5,8,13} x all text/binary assignments x "
       "maxPayload 0..45) with pointer-exact conservation and 'every multi-packet batch fits maxPayload'.",
@@ -126,7 +130,7 @@ check('C13', 'exploration',
 check('C14', 'fault_enumeration',
       "Silent black-holes (TCP stays open, data and FIN dropped) of a real eio server <-> real Go eio client link at 4 (quick) / 8 (thorough) placements over the heartbeat schedule (time-anchored before a ping, "
       "event-anchored between ping and pong and after the pong; 'upgrading': at the ws upgrade request, mid-handshake, at UpgradeDone, at the server's transport switch) x {both, c2s-only, s2c-only} x "
-      "{polling, websocket, upgraded, upgrading} x (pingInterval, pingTimeout) in {(1,1),(2,1)} quick / {1,2,3 s}^2 thorough; plus live-peer trials (idle and phase-offset traffic over 5 heartbeat periods). "
+      "{polling, websocket, upgraded, upgrading} x (pingInterval, pingTimeout) in {(1,1),(2,1)} quick / {1,2,3 s}^2 thorough; plus live-peer trials (idle, phase-offset traffic, traffic locked onto the ping/pong instants, a dense server stream around every ping, over 5 heartbeat periods). "
       "Oracle: every side that lost its peer runs OnClose within t0+pingInterval+pingTimeout+1.5 s with reason 'ping timeout', hearing sides within their stated bound, no premature ping timeout, no close on a healthy link.",
       "Local strict black-hole relay; monotonic clock; 5 ms scheduler-jitter canary (stall > 250 ms => trial inconclusive, 2 retries); 1.5 s slack; not run under -race.",
       "fault injection with event-synchronous placement + bracketed time bounds + jitter canary", "DESIGN.md §3 C14")
@@ -141,7 +145,7 @@ check('C18', 'exploration',
 
 check('C08', 'exploration',
       "Adapter level: the real session-aware adapter (window and clean-up period through a verif constructor, clean-up passes counted by a hook) driven with generated histories of namespace / room-with-exclusions / "
-      "direct broadcasts (text, binary, ack-carrying) over 3 sessions x 3 rooms, disconnect at every point k, clean-up period {off, 2 ms, 10 ms}, reconnect gap on both sides of the window; RestoreSession compared "
+      "direct broadcasts (text, binary, ack-carrying) over 3 sessions x 3 rooms, one or two sessions lost at every point k and restored one after the other from the same log, clean-up period {off, 2 ms, 10 ms}, reconnect gap on both sides of the window; RestoreSession compared "
       "with an executable model of the log (missed list, identity, replayed frames re-encoded and decoded by the reference codec). End to end: raw protocol peer tracking the offset itself, and the real Go client "
       "reconnecting through a TCP proxy cut (recovered flag on both sides, exactly-once across the reconnect).",
       "Time is bracketed: must-recover only when an upper bound of the elapsed time is inside the window and the offset entry is provably unexpired (or the cleaner is off), must-not only when a lower bound is outside. Binary leaves nested in maps / behind pointers inside logged packets are not exercised (C09 known finding).",
@@ -152,7 +156,7 @@ check('C15', 'fault_enumeration',
       "independent raw Engine.IO/Socket.IO server behind a killable listener, enumerating outage kind {connection refused, accept+reset, HTTP 503, accept+stall-then-heal} x pattern {down for good, down at first "
       "connect, down for j failures then restored, flapping} x ReconnectionAttempts 0..5 x jitter x transports: exact event counts (attempts == limit, reconnect_failed once, nothing afterwards), announced delays "
       "against min(max, min*2^n*(1+-j)), cumulative lower and per-gap upper clock brackets; offline emits (non-volatile / volatile / ack-carrying, 1..3 namespaces) issued at stable offline points and observed on "
-      "the raw server's wire with a delayed CONNECT reply: exactly once, in order, after the namespace was accepted, volatile never; forced window H5.",
+      "the raw server's wire with a delayed CONNECT reply: exactly once, in order, after the namespace was accepted, volatile never; forced window H5; a hot emitter (one goroutine emitting without pause through the connect: wire must read 0,1,2,...).",
       "Lifecycle handlers run asynchronously, so only counts, cumulative lower bounds from a synchronous start stamp and canary-gated upper bounds are verdicts; 'never reconnected' only >= 15 s after restore with attempts stopped.",
       "fault-pattern enumeration over a killable-listener rig; event-count and wire-log monitors; reference back-off model; jitter canary; hook H5", "DESIGN.md §3 C15")
 
